@@ -994,6 +994,9 @@ impl<ChannelSigner: EcdsaChannelSigner> OnchainTxHandler<ChannelSigner> {
 			}
 		});
 
+		#[cfg(feature = "verif_hooks")]
+		crate::ln::verif_hooks::pkgtrace::push(alloc::format!("agg-pre {} {}", cur_height, if requests.is_empty() { alloc::string::String::from("-") } else {
+			requests.iter().map(|r| r.verif_dump()).collect::<Vec<_>>().join(";") }));
 		// Then try to maximally aggregate `requests`.
 		for i in (1..requests.len()).rev() {
 			for j in 0..i {
@@ -1009,6 +1012,9 @@ impl<ChannelSigner: EcdsaChannelSigner> OnchainTxHandler<ChannelSigner> {
 			}
 		}
 
+		#[cfg(feature = "verif_hooks")]
+		crate::ln::verif_hooks::pkgtrace::push(alloc::format!("agg-post {} {}", cur_height, if requests.is_empty() { alloc::string::String::from("-") } else {
+			requests.iter().map(|r| r.verif_dump()).collect::<Vec<_>>().join(";") }));
 		// Finally, split requests into timelocked ones and immediately-spendable ones.
 		let mut preprocessed_requests = Vec::with_capacity(requests.len());
 		for req in requests {
